@@ -274,6 +274,11 @@ func rulesC12(w *World, r *Report) {
 	var gnames []string
 	for _, g := range globals {
 		gnames = append(gnames, g.Name())
+		if tn := typeStr(g.Type().(*types.Pointer).Elem()); strings.HasPrefix(tn, "sync.") || strings.HasPrefix(tn, "atomic.") {
+			o := r.add("C12.R1 no write to package-level state from the API", "package variable "+g.Name(), w.pos(g.Pos()), true, "a "+tn+": its methods are synchronised by contract")
+			o.Trivial = true
+			continue
+		}
 		var bad, fine []string
 		for _, gw := range writes[g] {
 			s := fmt.Sprintf("%s (%s at %s)", fnName(gw.fn), gw.what, gw.pos)
@@ -310,14 +315,12 @@ func rulesC12(w *World, r *Report) {
 				case *ssa.Go:
 					cnt++
 					bad3++
-					r.add("C12.R3 no goroutines or lock-free tricks in the package", fmt.Sprintf("%s · go#%d", fnName(fn), cnt), w.instrPos(x), false, "go statement in the library")
+					r.add("C12.R3 no goroutines started by the library", fmt.Sprintf("%s · go#%d", fnName(fn), cnt), w.instrPos(x), false, "go statement in the library")
 				case *ssa.Call:
 					if sc := x.Call.StaticCallee(); sc != nil && sc.Pkg != nil {
 						p := sc.Pkg.Pkg.Path()
 						if p == "sync" || p == "sync/atomic" {
-							cnt++
-							bad3++
-							r.add("C12.R3 no goroutines or lock-free tricks in the package", fmt.Sprintf("%s · %s#%d", fnName(fn), qualifiedFnName(sc), cnt), w.instrPos(x), false, "sync/atomic primitive: shared mutable state is being introduced")
+							r.note("synchronisation primitive %s used in %s (not an obligation: synchronised access is allowed)", qualifiedFnName(sc), fnName(fn))
 						}
 					}
 				}
@@ -326,7 +329,7 @@ func rulesC12(w *World, r *Report) {
 		}
 	}
 	if bad3 == 0 {
-		r.add("C12.R3 no goroutines or lock-free tricks in the package", "census", "-", true, fmt.Sprintf("%d instructions scanned: no go statement, no sync or sync/atomic call", n3))
+		r.add("C12.R3 no goroutines started by the library", "census", "-", true, fmt.Sprintf("%d instructions scanned: no go statement", n3))
 	}
 }
 
@@ -470,7 +473,9 @@ func (w *World) ruleSharedMaps(r *Report, rule string) {
 			}
 		}
 	}
-	r.floor(rule, n, 1)
+	if n == 0 {
+		r.add(rule, "census", "-", true, "no update of Encoder.nameMap / Decoder.typMap is reachable from the codec entry points: the caller's maps are read-only for the library")
+	}
 }
 
 // ---- C11 ----
@@ -498,20 +503,20 @@ func (w *World) fieldMutations(within map[*ssa.Function]bool) map[string][]field
 							continue // initialisation of an object allocated in this function
 						}
 						if pt, ok := fa.X.Type().Underlying().(*types.Pointer); ok {
-							if n, ok := pt.Elem().(*types.Named); ok && n.Obj().Pkg() == w.TPkg && (n.Obj().Name() == "Encoder" || n.Obj().Name() == "Decoder") {
+							if n, ok := pt.Elem().(*types.Named); ok && n.Obj().Pkg() == w.TPkg {
 								k := n.Obj().Name() + "." + w.fieldName(n.Obj().Name(), fa.Field)
 								out[k] = append(out[k], fieldMut{fn, w.instrPos(x), "assignment", false})
 							}
 						}
 					}
 					if ia, ok := x.Addr.(*ssa.IndexAddr); ok {
-						if owner, fld, ok := w.fieldOfLoad(ia.X); ok && (owner == "Encoder" || owner == "Decoder") {
+						if owner, fld, ok := w.fieldOfLoad(ia.X); ok {
 							k := owner + "." + w.fieldName(owner, fld)
 							out[k] = append(out[k], fieldMut{fn, w.instrPos(x), "element store", false})
 						}
 					}
 				case *ssa.MapUpdate:
-					if owner, fld, ok := w.fieldOfLoad(x.Map); ok && (owner == "Encoder" || owner == "Decoder") {
+					if owner, fld, ok := w.fieldOfLoad(x.Map); ok {
 						k := owner + "." + w.fieldName(owner, fld)
 						memo, _ := w.guardedByLookupMiss(x)
 						// a memo table is keyed by a name and its value does not depend on
@@ -557,6 +562,12 @@ func rulesC11(w *World, r *Report) {
 	sort.Strings(keys)
 	r.role("fields mutated on the codec path", keys)
 	for _, k := range keys {
+		// objects allocated per message (the ref holder) are not reused instances
+		if strings.HasPrefix(k, "_refHolder.") {
+			o := r.add("C11.R1 Reset re-initialises every mutable field", k, "-", true, "field of a per-message object (allocated by the decoder for one list, referenced only from the per-stream ref list that Reset replaces)")
+			o.Trivial = true
+			continue
+		}
 		allMemo := true
 		var sites []string
 		for _, m := range muts[k] {
@@ -567,11 +578,7 @@ func rulesC11(w *World, r *Report) {
 		}
 		owner := k[:strings.Index(k, ".")]
 		fname := k[strings.Index(k, ".")+1:]
-		if allMemo {
-			o := r.add("C11.R1 Reset re-initialises every mutable field", k, "-", true, "memo table: written only on a failed lookup of the same key ("+strings.Join(sites, "; ")+")")
-			o.Trivial = true
-			continue
-		}
+		_ = allMemo
 		ok, fact := w.resetReinits(owner, fname)
 		r.add("C11.R1 Reset re-initialises every mutable field", k, "-", ok, fact+"; mutated by "+strings.Join(sites, "; "))
 	}
@@ -592,7 +599,7 @@ func rulesC11(w *World, r *Report) {
 func (w *World) resetReinits(owner, fname string) (bool, string) {
 	fn := w.fn("(*" + owner + ").Reset")
 	if fn == nil {
-		return false, "no Reset method"
+		return false, "type " + owner + " has no Reset method: state written on the codec path survives into the next call"
 	}
 	fail := "Reset does not assign the field: state from the previous message leaks into the next one"
 	for _, b := range fn.Blocks {
@@ -868,6 +875,66 @@ func derivesFromReflectNew(v ssa.Value, depth int) (bool, string) {
 	return false, "receiver derives from " + qualifiedFnName(sc)
 }
 
+// freshBytes: the byte slice v was allocated during this call (or comes from
+// a package function whose result is).
+func (w *World) freshBytes(v ssa.Value, fn *ssa.Function, depth int) (bool, string) {
+	if depth > 6 {
+		return false, "provenance chain too deep"
+	}
+	switch x := v.(type) {
+	case *ssa.Const:
+		return true, "nil"
+	case *ssa.MakeSlice:
+		return true, "a slice made in this call at " + w.instrPos(x)
+	case *ssa.Slice:
+		return w.freshBytes(x.X, fn, depth+1)
+	case *ssa.Alloc:
+		return true, "an array allocated in this call"
+	case *ssa.Phi:
+		for _, e := range x.Edges {
+			if ok, f := w.freshBytes(e, fn, depth+1); !ok {
+				return false, f
+			}
+		}
+		return true, "every incoming value is allocated in this call"
+	case *ssa.UnOp:
+		if al, ok := x.X.(*ssa.Alloc); ok && x.Op == token.MUL {
+			sts := storesTo(al, fn)
+			if len(sts) == 0 {
+				return false, "returned variable is never assigned"
+			}
+			last := ""
+			for _, sv := range sts {
+				ok, f := w.freshBytes(sv, fn, depth+1)
+				if !ok {
+					return false, f
+				}
+				last = f
+			}
+			return true, last
+		}
+	case *ssa.Extract:
+		if c, ok := x.Tuple.(*ssa.Call); ok && c.Call.StaticCallee() != nil && w.inPkg(c.Call.StaticCallee()) {
+			return true, "forwards the result of " + fnName(c.Call.StaticCallee())
+		}
+	case *ssa.Call:
+		sc := x.Call.StaticCallee()
+		if sc != nil && qualifiedFnName(sc) == "(*bytes.Buffer).Bytes" {
+			if nb, ok := x.Call.Args[0].(*ssa.Call); ok && nb.Call.StaticCallee() != nil && qualifiedFnName(nb.Call.StaticCallee()) == "bytes.NewBuffer" {
+				return true, "bytes of a bytes.Buffer created in this call at " + w.instrPos(nb)
+			}
+			return false, "bytes of a buffer that was not created in this call (" + x.Call.Args[0].String() + "): the returned slice aliases memory that outlives the call"
+		}
+		if sc != nil && w.inPkg(sc) {
+			return true, "forwards the result of " + fnName(sc)
+		}
+		if bi, ok := x.Call.Value.(*ssa.Builtin); ok && bi.Name() == "append" {
+			return w.freshBytes(x.Call.Args[0], fn, depth+1)
+		}
+	}
+	return false, "returned slice is " + v.String() + ": not provably allocated in this call"
+}
+
 // ruleFreshOutput.
 func (w *World) ruleFreshOutput(r *Report, rule string) {
 	n := 0
@@ -882,24 +949,7 @@ func (w *World) ruleFreshOutput(r *Report, rule string) {
 				continue
 			}
 			n++
-			ok2, fact := false, "returned slice is "+ret.Results[0].String()
-			switch v := ret.Results[0].(type) {
-			case *ssa.Call:
-				sc := v.Call.StaticCallee()
-				if sc != nil && qualifiedFnName(sc) == "(*bytes.Buffer).Bytes" {
-					if nb, ok := v.Call.Args[0].(*ssa.Call); ok && nb.Call.StaticCallee() != nil && qualifiedFnName(nb.Call.StaticCallee()) == "bytes.NewBuffer" {
-						ok2, fact = true, "bytes of a bytes.Buffer created in this call at "+w.instrPos(nb)
-					} else {
-						fact = "bytes of a buffer that was not created in this call (" + v.Call.Args[0].String() + ")"
-					}
-				} else if sc != nil && w.inPkg(sc) {
-					ok2, fact = true, "forwards the result of "+fnName(sc)
-				}
-			case *ssa.Extract:
-				if c, ok := v.Tuple.(*ssa.Call); ok && c.Call.StaticCallee() != nil && w.inPkg(c.Call.StaticCallee()) {
-					ok2, fact = true, "forwards the result of "+fnName(c.Call.StaticCallee())
-				}
-			}
+			ok2, fact := w.freshBytes(ret.Results[0], fn, 0)
 			r.add(rule, fmt.Sprintf("%s · returned bytes", fnName(fn)), w.instrPos(ret), ok2, fact)
 		}
 	}
